@@ -30,12 +30,11 @@ impl super::GetFrameType for NewTokenFrame {
 
 impl super::EncodeSize for NewTokenFrame {
     fn max_encoding_size(&self) -> usize {
-        // token's length could not exceed 20
-        1 + 1 + self.token.len()
+        1 + VarInt::try_from(self.token.len()).unwrap().encoding_size() + self.token.len()
     }
 
     fn encoding_size(&self) -> usize {
-        1 + 1 + self.token.len()
+        1 + VarInt::try_from(self.token.len()).unwrap().encoding_size() + self.token.len()
     }
 }
 
